@@ -109,7 +109,9 @@ def run(chk):
     from .. import seqterm as S
 
     mp = marker_part_terms(sib)
-    for name in ("polars", "sql"):
+    if mp is None:
+        chk.undecided.append("R3: grouping across a subquery marker: a sibling is no isinstance dispatch any more")
+    for name in ("polars", "sql") if mp is not None else ():
         chk.ob("R3", sib.cfgs[name].module, sib.cfgs[name].func, f"SubqueryMarker.PART: {name} = {S.show(mp[name])} (cache: {S.show(mp['cache'])})", mp[name] == mp["cache"] == S.PART,
                f"grouping sequence after a subquery marker: {name} computes {S.show(mp[name])}, the cache {S.show(mp['cache'])}; a group_by before "
                "an alias that becomes a subquery must still group the summarize after it")  # fmt: skip
